@@ -6,9 +6,10 @@
 
 //! This module parses eBPF assembly language source code.
 
-use combine::error::Token;
+use combine::error::{StreamError, Token};
 use combine::parser::char::{alpha_num, char, digit, hex_digit, letter, spaces, string};
 use combine::stream::position::{self};
+use combine::stream::StreamErrorFor;
 #[cfg(feature = "std")]
 use combine::EasyParser;
 use combine::{
@@ -69,9 +70,11 @@ where
     I: Stream<Token = char>,
     I::Error: ParseError<I::Token, I::Range, I::Position>,
 {
-    char('r')
-        .with(many1(digit()))
-        .map(|x: String| x.parse::<i64>().unwrap())
+    char('r').with(many1(digit())).and_then(|x: String| {
+        x.parse::<i64>().map_err(|_| {
+            StreamErrorFor::<I>::message_static_message("register number out of range")
+        })
+    })
 }
 
 fn operand<I>() -> impl Parser<I, Output = Operand>
